@@ -243,6 +243,12 @@ def make_program(rnd, n_pos, name="M0", module="simgen_m0", pyname=None, collide
         alt = {"src": t["src"], "dst": rnd.choice([x for x in ids if x != t["dst"]] or ids), "events": list(t["events"]),
                "cond": [nm]}
         prog["trans"].insert(prog["trans"].index(t), alt)
+    if len(events) >= 2 and rnd.random() < 0.2:
+        # a chained event: ``after="<event>"`` sends that event with the arguments of the event being
+        # processed (run-to-completion mode: queued behind it)
+        t = rnd.choice(prog["trans"])
+        t.setdefault("after", []).append(rnd.choice([e for e in events if e not in t["events"]]))
+        prog["needs_rtc"] = True
     if rnd.random() < 0.3:
         # guards combined in a boolean expression: each operand is bound by its own signature, exactly
         # as when it is attached alone
@@ -453,7 +459,10 @@ class C07(Campaign):
         beh = {}
         for p in programs:
             is_async = any(m.get("async") for m in p["cbs"].values())
-            cands = gen.choose_effectful(rnd, p, rnd.randint(0, 2), ("before", "on", "after", "enter", "exit"))
+            # (a chained ``after="<event>"`` entry is itself a sender of the after group: no second one there)
+            sgroups = ("before", "on", "enter", "exit") if p.get("needs_rtc") or programs[0].get("needs_rtc") \
+                else ("before", "on", "after", "enter", "exit")
+            cands = gen.choose_effectful(rnd, p, rnd.randint(0, 2), sgroups)
             if p.get("base_module"):
                 # a subclass instance also runs the base class's (inherited) sending callbacks: a second
                 # sender in the same group would make the queue order depend on the order inside the group
@@ -478,7 +487,8 @@ class C07(Campaign):
         for k, p in enumerate(programs):
             is_async = any(m.get("async") for m in p["cbs"].values())
             ops.append({"op": "new", "inst": "AB"[k], "prog": k, "listeners": ["L0"],
-                        "rtc": True if is_async else rnd.choice([True, True, False]), "allow": True})
+                        "rtc": True if is_async or p.get("needs_rtc") else rnd.choice([True, True, False]),
+                        "allow": True})
         if twin is not None and rnd.random() < 0.5:
             twin["deferred"] = True
             ops.insert(1, {"op": "define", "prog": 1})
